@@ -1489,3 +1489,234 @@ def glued_words(repo, modules=None):
                     out.append((m, e.lineno, " ".join(t.string
                                                       for t in toks)))
     return n_tables, out
+
+
+# ---------------------------------------------------------------------------
+# G-STATE: what outlives one use
+
+
+CONTAINER_CTORS = ("dict", "list", "set", "OrderedDict", "defaultdict",
+                   "deque", "WeakValueDictionary", "WeakKeyDictionary",
+                   "Counter")
+MUTATORS = ("append", "add", "update", "setdefault", "pop", "extend",
+            "insert", "clear", "remove", "appendleft", "popitem",
+            "__setitem__")
+SELF_MUTATORS = MUTATORS + ("set_local", "set_global")
+LONG_LIVED = ("BaseTemplate", "BaseTemplateFile", "PageTemplate",
+              "PageTemplateFile", "PageTextTemplate", "PageTextTemplateFile",
+              "TemplateLoader", "PageTemplateLoader", "ModuleLoader",
+              "MemoryLoader", "Macros", "RepeatDict", "Scope")
+
+
+def _is_container(v):
+    return isinstance(v, (ast.Dict, ast.List, ast.Set)) or (
+        isinstance(v, ast.Call) and
+        src(v.func).split(".")[-1] in CONTAINER_CTORS)
+
+
+def state_census(repo, modules=None):
+    """Everything in the package that can remember something from one use
+    to the next: memoising decorators, module-level and class-level
+    containers that functions mutate, ``global`` statements, container
+    attributes of instances, and -- for the long-lived classes (templates,
+    loaders) -- every attribute store outside ``__init__``.  -> set of
+    (kind, owner, name)"""
+    out = set()
+    for m in repo.modules.values():
+        if modules is not None and m.name not in modules:
+            continue
+        modvars = set()
+        def bound(st):
+            """(name, value) of a plain or annotated assignment to a name"""
+            if isinstance(st, ast.Assign) and isinstance(
+                    st.targets[0], ast.Name):
+                return st.targets[0].id, st.value
+            if isinstance(st, ast.AnnAssign) and isinstance(
+                    st.target, ast.Name) and st.value is not None:
+                return st.target.id, st.value
+            return None, None
+        for st in m.tree.body:
+            nm_, val_ = bound(st)
+            if nm_ is not None and _is_container(val_):
+                modvars.add(nm_)
+        classvars = {}
+        classes = [x for x in ast.walk(m.tree) if isinstance(x, ast.ClassDef)]
+        for cl in classes:
+            for st in cl.body:
+                nm_, val_ = bound(st)
+                if nm_ is not None and _is_container(val_):
+                    classvars.setdefault(nm_, set()).add(cl.name)
+
+        def owner_of(fn):
+            a = getattr(fn, "_parent", None)
+            names = [fn.name]
+            while a is not None:
+                if isinstance(a, (ast.ClassDef, ast.FunctionDef)):
+                    names.append(a.name)
+                a = getattr(a, "_parent", None)
+            return m.name + "." + ".".join(reversed(names))
+
+        for fn in [x for x in ast.walk(m.tree)
+                   if isinstance(x, (ast.FunctionDef, ast.AsyncFunctionDef))]:
+            own = owner_of(fn)
+            cls = getattr(fn, "_parent", None)
+            cls = cls if isinstance(cls, ast.ClassDef) else None
+            for d in fn.decorator_list:
+                t = src(d)
+                if "cache" in t.lower() or "memo" in t.lower():
+                    out.add(("memoising decorator", own, t))
+            for n in ast.walk(fn):
+                if isinstance(n, ast.Global):
+                    for nm in n.names:
+                        out.add(("global statement", own, nm))
+                tgt = None
+                if isinstance(n, ast.Subscript) and isinstance(
+                        n.ctx, (ast.Store, ast.Del)):
+                    tgt = n.value
+                elif isinstance(n, ast.Call) and isinstance(
+                        n.func, ast.Attribute) and n.func.attr in MUTATORS:
+                    tgt = n.func.value
+                if tgt is not None:
+                    if isinstance(tgt, ast.Name) and tgt.id in modvars:
+                        out.add(("module-level container mutated", own,
+                                 tgt.id))
+                    elif isinstance(tgt, ast.Attribute) and \
+                            tgt.attr in classvars:
+                        base = src(tgt.value)
+                        if base in ("cls", "type(self)", "self.__class__") \
+                                or base in classvars[tgt.attr] or \
+                                base in [c.name for c in classes] or (
+                                    base == "self" and cls is not None and
+                                    not _assigned_in_init(cls, tgt.attr)):
+                            out.add(("class-level container mutated", own,
+                                     tgt.attr))
+                if isinstance(n, ast.Assign) and cls is not None:
+                    for t in n.targets:
+                        if isinstance(t, ast.Attribute) and \
+                                src(t.value) == "self":
+                            if _is_container(n.value):
+                                out.add(("container attribute",
+                                         m.name + "." + cls.name, t.attr))
+                            if cls.name in LONG_LIVED and \
+                                    fn.name != "__init__":
+                                out.add(("attribute store outside "
+                                         "__init__", own, t.attr))
+                if isinstance(n, ast.Call) and cls is not None and \
+                        cls.name in LONG_LIVED and fn.name != "__init__" and \
+                        src(n.func) in ("setattr", "object.__setattr__") and \
+                        n.args and src(n.args[0]) == "self":
+                    out.add(("attribute store outside __init__", own,
+                             src(n.args[1])[:40] if len(n.args) > 1 else "?"))
+                if isinstance(n, ast.Call) and cls is not None and \
+                        cls.name in LONG_LIVED and fn.name != "__init__" and \
+                        isinstance(n.func, ast.Attribute) and \
+                        n.func.attr in SELF_MUTATORS and (
+                            src(n.func.value) in ("self", "super()") or (
+                                src(n.func.value) in ("dict", "object")
+                                and n.args and src(n.args[0]) == "self")):
+                    out.add(("object mutates itself", own, n.func.attr))
+                if isinstance(n, ast.Subscript) and isinstance(
+                        n.ctx, ast.Store) and cls is not None and \
+                        cls.name in LONG_LIVED and fn.name != "__init__" and \
+                        src(n.value) == "self":
+                    out.add(("object mutates itself", own, "[...] ="))
+                if isinstance(n, ast.Subscript) and isinstance(
+                        n.ctx, ast.Store) and cls is not None and \
+                        cls.name in LONG_LIVED and fn.name != "__init__" and \
+                        src(n.value) == "self.__dict__":
+                    out.add(("attribute store outside __init__", own,
+                             src(n.slice)[:40]))
+    return out
+
+
+def _assigned_in_init(cls, attr):
+    for st in cls.body:
+        if isinstance(st, ast.FunctionDef) and st.name == "__init__":
+            for n in ast.walk(st):
+                if isinstance(n, ast.Assign):
+                    for t in n.targets:
+                        if isinstance(t, ast.Attribute) and \
+                                src(t.value) == "self" and t.attr == attr:
+                            return True
+    return False
+
+
+def g_state(repo, rep, rule, modules, site):
+    """The census of ``modules`` equals the reviewed one
+    (reference_state.json): a new memo, shared container or remembered
+    attribute has to be reviewed (is its key complete? can a second use
+    see the first?) before it is accepted."""
+    import json
+    import os
+    path = os.path.join(os.path.dirname(os.path.abspath(__file__)),
+                        "reference_state.json")
+    try:
+        with open(path) as fh:
+            ref = {tuple(x) for x in json.load(fh)["census"]}
+    except (OSError, KeyError, ValueError) as exc:
+        raise AnalysisError("reference_state.json unreadable: %s" % exc)
+    now = state_census(repo, modules)
+    scoped = {x for x in ref if x[1].rsplit(".", 1)[0] in modules or
+              any(x[1].startswith(mn + ".") for mn in modules)}
+    new = sorted(now - ref)
+    rep.check(not new, rule, site, "nothing remembers more between two uses "
+              "(two elements, two renders, two templates of one process) "
+              "than on the reviewed tree: no new memoising decorator, "
+              "shared container, global, container attribute or attribute "
+              "store of a long-lived object (%d reviewed item(s) in %d "
+              "module(s))" % (len(scoped), len(modules)),
+              construct="unreviewed-state",
+              detail="; ".join("%s %s: %s" % x for x in new[:4]))
+    if len(now) < 5 and len(modules) > 3:
+        raise AnalysisError("state census found only %d item(s)" % len(now))
+    return new
+
+
+# modules that hold state a property depends on although its anchors do
+# not name them (one line of reason each)
+STATE_EXTRA = {
+    # the expression compilers hold the tokens that error frames quote
+    "C12": {"chameleon.tales", "chameleon.zpt.program"},
+    "C11": {"chameleon.tales"},
+    # the repeat dictionary is created per render by the template class
+    "C08": {"chameleon.zpt.template"},
+    "C01": {"chameleon.zpt.template", "chameleon.utils"},
+    # escape sets travel through the expression engines
+    "C02": {"chameleon.tales"},
+}
+
+
+def state_rule(repo, rep, rule=None):
+    """G-STATE for one property: the modules its anchors name (all of the
+    package for C14), rule id R<nn>.S"""
+    import json
+    import os
+    from .core import VERIF
+    prop = rep.prop
+    rule = rule or "R%s.S" % prop[1:]
+    mods = None
+    try:
+        with open(os.path.join(VERIF, "properties.jsonl")) as fh:
+            for ln in fh:
+                pj = json.loads(ln)
+                if pj["id"] == prop:
+                    mods = set()
+                    for f in pj["anchors"]["files"]:
+                        mn = f.replace("src/", "").replace(".py", "") \
+                            .replace("/", ".")
+                        mods.add(mn[:-len(".__init__")]
+                                 if mn.endswith(".__init__") else mn)
+    except OSError as exc:
+        raise AnalysisError("properties.jsonl unreadable: %s" % exc)
+    if not mods:
+        raise AnalysisError("no anchor files for %s" % prop)
+    mods |= STATE_EXTRA.get(prop, set())
+    if prop == "C14":
+        mods = set(repo.modules)
+    mods = {mn for mn in mods if mn in repo.modules}
+    rep.rule(rule, "G-STATE: the census of state that outlives one use "
+                   "(memoising decorators, shared containers, globals, "
+                   "container attributes, attribute stores of templates "
+                   "and loaders) in the property's modules equals the "
+                   "reviewed one")
+    return g_state(repo, rep, rule, mods, "%s modules" % prop)
